@@ -10,6 +10,7 @@ package main
 import (
 	"context"
 	"fmt"
+	"math/bits"
 	"sort"
 	"strconv"
 	"strings"
@@ -173,13 +174,19 @@ func (w *world) refresh() {
 
 // electAllocator: server id campaigns for the allocator of dc; everybody else observes the result.
 func (w *world) electAllocator(id int, dc string) error {
+	err := w.electAllocatorUnobserved(id, dc)
+	w.observe(dc)
+	return err
+}
+
+// electAllocatorUnobserved: the other members have not yet noticed the result (their watch is late).
+func (w *world) electAllocatorUnobserved(id int, dc string) error {
 	old := sched.SetMember(id)
 	defer sched.SetMember(old)
 	err := w.srvs[id].GetTSOAllocatorManager().VerifBecomeAllocatorLeader(w.ctx, dc)
 	if err == nil {
 		w.allocLeader[dc] = id
 	}
-	w.observe(dc)
 	return err
 }
 
@@ -279,7 +286,7 @@ func (w *world) check(r *sched.Run) (string, *explore.Violation) {
 			if dc == tso.GlobalDCLocation {
 				continue
 			}
-			if need := tso.CalSuffixBits(int32(sfx[dc])); int(g.bits) < need && (dc == g.dc) {
+			if need := bits.Len(uint(sfx[dc])); int(g.bits) < need {
 				return "", &explore.Violation{Key: "suffix-bits-too-small", Msg: fmt.Sprintf("%s reports %d suffix bits but suffix %d of %s needs %d", g, g.bits, sfx[dc], dc, need)}
 			}
 		}
@@ -335,6 +342,7 @@ func (w *world) check(r *sched.Run) (string, *explore.Violation) {
 }
 
 type scen struct {
+	retries int // maxRetryCount of the TSO code (0 = the real 10)
 	fine  bool // read-lock acquisitions are scheduling points too
 	name  string
 	zones map[int]string
@@ -352,6 +360,11 @@ func scenario(sc scen) *explore.Scenario {
 	return &explore.Scenario{Name: sc.name, MaxPre: sc.pre, Tiers: sc.tiers,
 		Opts: sched.Options{Kinds: kinds, Delay: true},
 		Setup: func() *explore.Instance {
+			if sc.retries > 0 {
+				tso.VerifSetMaxRetryCount(sc.retries)
+			} else {
+				tso.VerifSetMaxRetryCount(10)
+			}
 			w := newWorld(sc.zones)
 			var dcs []string
 			for dc := range sc.alloc {
@@ -441,6 +454,33 @@ func main() {
 		}
 	}
 	l = append(l, scenario(scen{name: "2dc/allocator-move", zones: two, alloc: map[string]int{"dc1": 1, "dc2": 2}, pre: 4, tiers: "quick", build: move}))
+	// stale view: dc2's allocator moves from server 2 to server 3 (same datacenter) and the PD
+	// leader notices late; a global request in between must not be answered without dc2
+	stale := func(w *world) ([]string, []func()) {
+		return []string{"move", "global", "observe"}, []func(){
+			func() {
+				w.srvs[2].GetTSOAllocatorManager().ResetAllocatorGroup("dc2")
+				w.srvs[2].GetTSOAllocatorManager().VerifObserveAllocatorLeader("dc2")
+				if err := w.electAllocatorUnobserved(3, "dc2"); err == nil {
+					w.request(3, "dc2", 1)
+				}
+			},
+			func() { w.request(1, G, 1) },
+			func() { w.observe("dc2"); w.request(1, G, 1) },
+		}
+	}
+	twoInDC2 := map[int]string{1: "dc1", 2: "dc2", 3: "dc2"}
+	l = append(l, scenario(scen{name: "2dc/stale-view", zones: twoInDC2, alloc: map[string]int{"dc1": 2, "dc2": 2}, pre: 3, tiers: "quick", build: stale, retries: 2}))
+	l = append(l, scenario(scen{name: "2dc/stale-view@10", zones: twoInDC2, alloc: map[string]int{"dc1": 2, "dc2": 2}, pre: 8, tiers: "thorough", build: stale, retries: 3}))
+	// four datacenters: the suffix needs 3 bits
+	four := map[int]string{1: "dc1", 2: "dc2", 3: "dc3", 4: "dc4"}
+	l = append(l, scenario(scen{name: "4dc/local+global", zones: four, alloc: map[string]int{"dc1": 1, "dc2": 2, "dc3": 3, "dc4": 4}, pre: 2, tiers: "quick", build: func(w *world) ([]string, []func()) {
+		return []string{"local4", "local1", "global"}, []func(){
+			func() { w.request(4, "dc4", 1) },
+			func() { w.request(1, "dc1", 1) },
+			func() { w.request(1, G, 1) },
+		}
+	}}))
 	three := map[int]string{1: "dc1", 2: "dc2", 3: "dc3"}
 	l = append(l, scenario(scen{name: "3dc/local+global", zones: three, alloc: map[string]int{"dc1": 1, "dc2": 2, "dc3": 3}, pre: 4, tiers: "quick", build: func(w *world) ([]string, []func()) {
 		return []string{"local2", "local3", "global"}, []func(){
